@@ -51,6 +51,16 @@ def reads(m, q, dt):
 def observe(payload):
     res = []
     for case in payload['cases']:
+        try:
+            res.append(observe_case(case))
+        except Exception as e:      # the frozen matrix could not even be built / read
+            res.append({'crash': exn_name(e) + ': ' + str(e)[:200]})
+    return {'cases': res}
+
+
+def observe_case(case):
+    res = []
+    if True:
         dt = case['dtype']
         ty = DTYPES[dt][0]
         if case['kind'] == 'build':
@@ -69,4 +79,4 @@ def observe(payload):
             m = ImmutableCsrMatrix(case['row'], case['col'], [dec(v, dt) for v in case['data']],
                                    (case['R'], case['C']), dtype=ty)
             res.append({'reads': reads(m, case['queries'], dt)})
-    return {'cases': res}
+    return res[0]
